@@ -159,6 +159,72 @@ def r14_1(ctx, rc, only=None):
                              sg.describe_path(path), key=key)
     if sites < (2 if only is None else 1):
         raise AnalysisError('only %d reservation sites found' % sites)
+    # every reservation is followed by a region whose failure releases it:
+    # the statement after the reserving statement is a try whose broad
+    # handler releases and re-raises (independent of the typestate verdict,
+    # so that a known leak elsewhere in the function cannot mask a missing
+    # release here)
+    for F in bfuncs:
+        if only is not None and F.name not in only:
+            continue
+        for blk in ast.walk(F.node):
+            for fld in ('body', 'orelse', 'finalbody'):
+                lst = getattr(blk, fld, None)
+                if not isinstance(lst, list):
+                    continue
+                for i, st in enumerate(lst):
+                    if isinstance(st, (ast.Try, ast.If, ast.For, ast.While,
+                                       ast.With, ast.FunctionDef)):
+                        continue
+                    if not any(isinstance(c, ast.Call) and any(
+                            isinstance(g, Func) and g.qualname == RESERVE
+                            for g in prog.resolve_call(c, F))
+                            for c in ast.walk(st)):
+                        continue
+                    key = 'reservation in %s is followed by a releasing ' \
+                        'handler' % F.qualname
+                    nxt = lst[i + 1] if i + 1 < len(lst) else None
+                    ok = False
+                    if isinstance(nxt, ast.Try):
+                        for h in nxt.handlers:
+                            names = ['BaseException'] if h.type is None \
+                                else [ast.unparse(t).split('.')[-1]
+                                      for t in (h.type.elts if isinstance(
+                                          h.type, ast.Tuple) else [h.type])]
+
+                            def releases(c, fn, depth=0):
+                                for g in prog.resolve_call(c, fn):
+                                    if isinstance(g, Func) and \
+                                            g.qualname == RELEASE:
+                                        return True
+                                    if isinstance(g, Func) and \
+                                            g.cls == R.builder and \
+                                            not g.is_public and depth < 2 \
+                                            and any(releases(c2, g,
+                                                             depth + 1)
+                                                    for c2 in
+                                                    prog.calls_in(g)):
+                                        return True
+                                return False
+                            if set(names) & {'Exception', 'BaseException'} \
+                                    and h.body and isinstance(
+                                        h.body[-1], ast.Raise) and any(
+                                        isinstance(c, ast.Call) and
+                                        releases(c, F) for b in h.body
+                                        for c in ast.walk(b)):
+                                ok = True
+                    if ok:
+                        rc.ok({'reserve_in': F.qualname,
+                               'handler': 'release + raise'}, key=key)
+                    else:
+                        rc.violation(
+                            'reservation-unprotected | ' + F.qualname,
+                            'the statement that reserves the directories of '
+                            'an output in %s is not followed by a try whose '
+                            'handler releases the reservation and re-raises: '
+                            'a failure of the next steps leaves the '
+                            'directories reserved' % F.qualname,
+                            prog.loc(F, st), key=key)
 
 
 def _cnt(n):
@@ -303,6 +369,77 @@ def r14_3(ctx, rc):
                     prog.loc(H, leaves[0]), key=k2)
             else:
                 rc.ok({'loop_over': lp.iter.id}, key=k2)
+    # sibling agreement with the release walk: a directory that the release
+    # of a failed output gives up is put into the same sets as a directory
+    # handed off here (one of them feeds the removers, the other makes it
+    # disappear from the view), and the only reason not to record a handed-
+    # off directory is that somebody has reserved it meanwhile
+    from .refcount import Walk
+    Rl = ctx.E.func(RELEASE)
+    cattrs = Walk(ctx, ctx.E.func(RESERVE)).counter_attr() & \
+        Walk(ctx, Rl).counter_attr()
+    counts = next(iter(cattrs)) if len(cattrs) == 1 else None
+
+    def added_sets(fn):
+        out = {}
+        fs = [fn] + [g for c in prog.calls_in(fn)
+                     for g in prog.resolve_call(c, fn)
+                     if isinstance(g, Func) and g.cls == fn.cls and
+                     not g.is_public and not g.is_ctor_call]
+        for f0 in fs:
+            for c in prog.calls_in(f0):
+                f = c.func
+                if isinstance(f, ast.Attribute) and f.attr == 'add' and \
+                        isinstance(f.value, ast.Attribute):
+                    out.setdefault(f.value.attr, []).append((f0, c))
+        return out
+    rel_sets = added_sets(Rl)
+    ho_sets = added_sets(H)
+    key = '%s records a directory in the same sets as %s' % (
+        handoff, RELEASE)
+    if set(rel_sets) - set(ho_sets):
+        rc.violation(
+            'handoff-sets | ' + handoff,
+            '%s gives a directory up by adding it to %s, but %s adds the '
+            'directories it is handed only to %s: they are not %s' % (
+                RELEASE, sorted(rel_sets), handoff, sorted(ho_sets),
+                'virtually removed' if gattr in ho_sets else
+                'recorded for physical removal'),
+            prog.loc(H, H.node), key=key)
+    else:
+        rc.ok({'sets': sorted(rel_sets)}, key=key)
+    if counts is not None:
+        for sname, sites in sorted(ho_sets.items()):
+            if sname not in rel_sets:
+                continue
+            for f0, c in sites[:1]:
+                sgh = ctx.E.super(f0, lambda g: False)
+                site = [x for x in sgh.nodes if x.kind == 'leaf' and
+                        x.call is c]
+                facts = Q.control_facts(sgh, site[0].id) if site else []
+                odd = []
+                for pol, atom, fn_, cn_ in facts:
+                    good = isinstance(atom, ast.Compare) and len(
+                        atom.ops) == 1 and isinstance(
+                            atom.ops[0], ast.In) and isinstance(
+                                atom.comparators[0], ast.Attribute) and \
+                        atom.comparators[0].attr == counts and pol == 'F'
+                    if not good:
+                        odd.append('%s is %s' % (ast.unparse(atom)[:50],
+                                                 pol))
+                key = '%s: .%s.add only skipped for reserved directories' \
+                    % (handoff, sname)
+                if odd:
+                    rc.violation(
+                        'handoff-condition | %s | %s' % (handoff, sname),
+                        'a handed-off directory is recorded in .%s only '
+                        'when %s; the only admissible reason to skip it is '
+                        'that it is reserved (a key of .%s)' % (
+                            sname, '; '.join(odd), counts),
+                        prog.loc(f0, c), key=key)
+                else:
+                    rc.ok({'set': sname, 'skipped_iff': 'in .' + counts},
+                          key=key)
     key = '%s records its argument in %s' % (handoff, gattr)
     if ok:
         rc.ok({'set': gattr}, key=key)
